@@ -106,11 +106,12 @@ CHECKS = {
    technique='Coq lemmas about the reader model + correspondence and search on independently written documents',
    design='DESIGN.md §3 C03'),
  'C04': dict(
-   text='Machine-checked proof (Coq), PARTIAL: every dumped grid starts with ver:"X" (X the escaped version text); a written string holds only characters >= U+0020, only escapes the grammar accepts, and is accepted '
-        'by the literal rule exactly up to its own closing quote; non-finite numbers are INF, -INF, NaN; 3.0-only kinds are refused under a pre-3.0 version. Line / cell layout and grammar conformance of whole documents '
-        'are judged on every dumped grid by an independent recursive-descent ZINC reader written from the Haystack grammar (harness/zincspec.py, shares no code with hszinc), which must recover the same grid.',
-   note='PARTIAL: the one-line-per-row layout is not proved in Coq. The independent reader is harness code. Print Assumptions: closed under the global context.',
-   technique='Coq proofs about the writer model + text-equality correspondence + independent reader',
+   text='Machine-checked proof (Coq) about the ZINC writer model: a dumped grid is header line, column line, one line per row and a final newline; every row line holds exactly one cell per column; no line and no cell holds a character below U+0020 '
+        '(for every grid without nested grids whose verbatim tokens - names, units, number tokens - are clean); the header is ver:"X" (X the escaped version text); a written string holds only escapes the grammar accepts and is accepted '
+        'by the literal rule exactly up to its own closing quote; non-finite numbers are INF, -INF, NaN; 3.0-only kinds are refused under a pre-3.0 version. Grammar conformance of whole documents '
+        'is judged on every dumped grid by an independent recursive-descent ZINC reader written from the Haystack grammar (harness/zincspec.py, shares no code with hszinc), which must recover the same grid.',
+   note='PARTIAL: conformance to a grammar relation is not proved in Coq (the independent reader is harness code); nested grids are excluded from the layout theorem (their text spans lines by design). Print Assumptions: closed under the global context.',
+   technique='Coq proofs about the writer model (layout by induction over rows / cells, control-character freedom by induction over values) + text-equality correspondence + independent reader',
    design='DESIGN.md §3 C04'),
  'C07': dict(
    text='Machine-checked proof (Coq), PARTIAL: on text (every code-point list as Str and Uri) each format\'s reader after its writer is the identity, both writers are total, hence any chain of transcodings is lossless '
